@@ -119,3 +119,24 @@ Print Assumptions C04_py_slice_examples.
 Theorem C04_stackslice_positional_order : SrcFacts.c04_stackslice_field_order = true.
 Proof. reflexivity. Qed.
 Print Assumptions C04_stackslice_positional_order.
+
+(* the argument checks of extract_since / extract_until (isinstance tests; bool is an int): an
+   untyped call is exactly the typed call its value selects, anything else is a TypeError raised
+   before any extraction — tied by the `sincev` / `untilv` queries of the correspondence *)
+Theorem C04_argument_checks : forall w i,
+  (forall v, run_api w (ASinceV v) =
+             match v with
+             | PNone => run_api w (ASince None)
+             | PFrame n => run_api w (ASince (Some n))
+             | _ => ATypeError
+             end)
+  /\ (forall v, run_api w (AUntilV i v) =
+                match v with
+                | PNone => run_api w (AUntilN i None)
+                | PInt z => run_api w (AUntilN i (Some z))
+                | PBool b => run_api w (AUntilN i (Some (if b then 1 else 0)%Z))
+                | PFrame n => run_api w (AUntilF i n)
+                | POther => ATypeError
+                end).
+Proof. intros w i. split; intros v; destruct v; reflexivity. Qed.
+Print Assumptions C04_argument_checks.
